@@ -14,6 +14,7 @@ PART 2 (namespace `Qbice.Core`): the same theorems for the firewall-free core mo
 -/
 import QbiceVerif.Lemmas.EngineCoreFw13
 import QbiceVerif.Lemmas.EngineCoreFwTotal
+import QbiceVerif.Lemmas.EngineCoreFwExecs
 import QbiceVerif.Lemmas.EngineCoreFwEx
 import QbiceVerif.Lemmas.EngineCoreEx
 namespace Qbice.CoreFw
@@ -173,6 +174,29 @@ theorem core_rounds_exec_once_partial {p : Program} (wf : WF p) (sh : Shape p) {
 example : Inv exF exFU ∧
     (runRounds exF [[5, 4], [3, 5, 5]] { exFU with log := [] }).toOption.map (·.2.log) = some [2, 3, 4, 5] :=
   ⟨exFU_inv, by decide⟩
+
+/-- C03 ALONG A WHOLE HISTORY: for a well-formed history (`HistOK`) the run from the initial state IS
+    `.ok`, and (`ExecOK`, `Lemmas/EngineCoreFwExecs.lean`) in every round the reported executor invocations
+    (`execs` of the `.round` output — what the correspondence check compares with the implementation) are
+    each justified in the state in which the round began (`Just`: the key was not verified in this epoch,
+    and it had never been computed or a recorded dependency of it has a different from-scratch value now,
+    i.e. since the key's previous run), and all invocations between two sessions — over all rounds of the
+    segment — are pairwise distinct (each key runs at most once per epoch).  PARTIAL: `Shape p`. -/
+theorem core_history_exec_justified_partial {p : Program} (wf : WF p) (sh : Shape p) {ops : List Op}
+    (hok : HistOK p ops) :
+    ∃ outs s', runOps p ops {} = .ok (outs, s') ∧ ExecOK p ops outs {} [] := by
+  obtain ⟨⟨outs, s'⟩, h⟩ := runOps_total wf sh ops {} (Inv.init p) hok.1 (Or.inr hok.2)
+  exact ⟨outs, s', h, execOK_of_run wf sh ops {} [] outs s' (Inv.init p) List.nodup_nil
+    (fun x hx => by cases hx) h⟩
+
+/-- non-vacuity: `exDOps` (three sessions, three rounds on the diamond with a firewall and a projection)
+    is well formed; the invocations its rounds report -/
+example : WF exD ∧ Shape exD ∧ HistOK exD exDOps ∧
+    (runOps exD exDOps {}).toOption.map (fun r => r.1.filterMap fun o =>
+      match o with
+      | .round _ execs => some execs
+      | _ => none) = some [[2, 3, 4, 5], [2], [2, 3, 4, 5]] :=
+  ⟨exD_wf, exD_pf.shape, exDOps_histOK, by decide +kernel⟩
 
 /-- "re-querying a verified key executes nothing": the state (hence the log) is unchanged — for all
     five kinds, also for a firewall with a pending backward projection (the user does not perform it). -/
